@@ -822,6 +822,17 @@ where
         break existing_future.clone();
       }
 
+      // 2b. The lookup in `fetch_with` and this leader election are not one atomic step: a
+      //     load that was in flight when we missed may have finished in between (entry
+      //     inserted, marker removed). Look again before starting a second load for the
+      //     same miss. This cannot deadlock: no path blocks on a pending-loads stripe while
+      //     holding a shard lock (the loader task releases the shard guard first, and the
+      //     stale-refresh trigger only try_locks).
+      if let Some(value) = self.peek(key) {
+        self.shared.metrics.record_hits(index, 1);
+        return value;
+      }
+
       // 3. If we reach here, we are the "leader".
       //    This is the only time a MISS is recorded for the entire operation.
       self.shared.metrics.record_misses(index, 1);
